@@ -29,8 +29,8 @@ def _case(draw, tier):
     sem = draw(st.sampled_from(["sum-product", "sum-product", "lse-sum", "complex-lse-sum"]))
     shape = draw(st.sampled_from(["pair", "pair", "pair", "square", "chain", "evidence", "conj"]))
     n = {"pair": 2, "square": 1, "chain": draw(st.sampled_from([2, 3])), "evidence": 2, "conj": 2}[shape]
-    kw = dict(n=n, max_vars=4 if big else 3, max_K=3 if n < 3 else 2, skeleton=True, max_reps=2,
-              kron_max_out=9)
+    kw = dict(n=n, max_vars=4 if big else 3, max_K=3 if n < 3 else 2, skeleton=True,
+              max_reps=2 if shape != "chain" else 1, kron_max_out=9 if shape != "chain" else 4)
     if sem == "lse-sum":
         bases = draw(gen.sd_pair(input_types=PROB_INPUTS, nonneg=True, **kw))
     elif sem == "sum-product":
